@@ -548,3 +548,33 @@ def private_tree_obligations(ctx):
            "object just read from the repository), so a failed write or another collection cannot leave entries in it")
 def k8(ctx):
     return private_tree_obligations(ctx)
+
+
+@rule("C09", "K9", floor=2, kind="N",
+      desc="the committed blob holds the served bytes: the data handed to _import_one can be iterated twice (working "
+           "tree file and blob) and is the validated content or its serialisation (same obligations as C14/V7) - a "
+           "one-shot generator leaves an empty blob next to a full working-tree file")
+def k9(ctx):
+    from .c14 import normalized_obligations
+    return normalized_obligations(ctx)
+
+
+@rule("C09", "K10", floor=2, kind="S",
+      desc="commit metadata is the server's: do_commit is given message, author, tree and ref only - dates and other "
+           "header fields are not taken from uploaded data (a LAST-MODIFIED of 1601 gives a commit git fsck rejects)")
+def k10(ctx):
+    ALLOWED = {"message", "tree", "ref", "author", "committer", "encoding", "merge_heads", "no_verify", "sign"}
+    obs = []
+    for cq in (BARE, TREE):
+        fi = ctx.own_method(cq, "_commit_tree")
+        cfg = ctx.cfg(fi)
+        calls = [(n, c) for n in cfg.stmt_nodes() for c in n.calls() if (dotted(c.func) or "").endswith("do_commit")]
+        if not calls:
+            raise AnalysisError("%s._commit_tree: do_commit call not found" % cq)
+        for n, c in calls:
+            extra = [k.arg or "**" for k in c.keywords if (k.arg not in ALLOWED) and not (isinstance(k.value, ast.Constant) and k.value.value is None)]
+            extra += ["positional #%d" % i for i, _a in enumerate(c.args) if i >= 1]
+            obs.append(ctx.ob(not extra, fi.qualname, where(fi, n), "do_commit(message, author, tree, ref)", "no further commit header fields",
+                              "`%s` passes %s to do_commit: commit header fields derived from request data can make the object invalid for git "
+                              "(negative or overflowing dates fail `git fsck`)" % (src(c)[:70], ", ".join(extra))))
+    return obs
